@@ -12,6 +12,7 @@
 #include <ksi/tlv.h>
 #include <ksi/tlv_template.h>
 #include "hx.h"
+#include "fault.h"
 
 KSI_IMPORT_TLV_TEMPLATE(KSI_AggregationHashChain);
 KSI_IMPORT_TLV_TEMPLATE(KSI_CalendarHashChain);
@@ -66,13 +67,14 @@ static long long cal_time(KSI_LIST(KSI_HashChainLink) *links, unsigned long long
 }
 
 int main(void) {
-	char *line = NULL; size_t cap = 0; char **tok = malloc(sizeof(char *) * MAXTOK);
+	char *line = NULL; size_t cap = 0; char **tok = H_MALLOC(sizeof(char *) * MAXTOK);
 	if (KSI_CTX_new(&ctx) != KSI_OK) return 2;
 	while (getline(&line, &cap, stdin) > 0) {
 		int n, i, res;
 		line[strcspn(line, "\n")] = 0;
 		n = hx_split(line, tok, MAXTOK);
 		if (n == 0) continue;
+		if (fault_cmd(tok, n)) { fflush(stdout); continue; }
 		if (!strcmp(tok[0], "AGG")) {
 			KSI_LIST(KSI_HashChainLink) *links = NULL; KSI_DataHash *in = NULL, *out = NULL; int lvl = -1;
 			size_t k; unsigned char *b = hx_dec(tok[3], &k);
@@ -161,6 +163,9 @@ int main(void) {
 			printf("S %d %llx\n", res, (unsigned long long)shape);
 			KSI_AggregationHashChain_free(c);
 		} else { fprintf(stderr, "unknown command %s\n", tok[0]); return 2; }
+#ifdef FAULT_WRAP
+		fflush(stdout);
+#endif
 	}
 	free(line); free(tok);
 	KSI_CTX_free(ctx);
